@@ -31,21 +31,20 @@ func C13(c *core.Ctx) {
 		{Func: "(*pkg/schemas.Type).UnmarshalJSON", CurTag: "$defs", LegacyTag: "definitions"},
 		{Func: "(*pkg/schemas.Type).UnmarshalJSON", CurTag: "dependentSchemas", LegacyTag: "dependencies"},
 	}
+	sem := legacySemantic(c)
 	for _, p := range pairs {
-		r := a.LegacyFold(p)
-		key := p.LegacyTag + " -> " + p.CurTag
-		if r.OK {
-			c.Pass("B-LEGACY", p.Func, key, r.How)
-			c.Sample(map[string]any{"rule": "B-LEGACY", "func": p.Func, "pair": key, "how": r.How})
-		} else {
-			c.Fail("B-LEGACY", p.Func, key, r.Pos, strings.Join(r.Problems, "; "), r.Problems)
+		p := p
+		typ := "Schema"
+		if strings.Contains(p.Func, ".Type)") {
+			typ = "Type"
 		}
-	}
-	ok, how, problems := a.RefPrefixCheck("(*pkg/generator.schemaGenerator).extractRefNames")
-	if ok {
-		c.Pass("B-LEGACY:prefix", "(*pkg/generator.schemaGenerator).extractRefNames", "pointer prefixes", how)
-	} else {
-		c.Fail("B-LEGACY:prefix", "(*pkg/generator.schemaGenerator).extractRefNames", "pointer prefixes", "", strings.Join(problems, "; "), nil)
+		legacyPair(c, sem, typ, p.LegacyTag, p.CurTag, func() (bool, string, string) {
+			r := a.LegacyFold(p)
+			if r.OK {
+				return true, r.How, r.Pos
+			}
+			return false, strings.Join(r.Problems, "; "), r.Pos
+		})
 	}
 	// B-PARSER: "YAML chosen by file extension" — of the file that is opened, i.e. after extension resolution and symlinks
 	emit(c, a.ParserChoice())
